@@ -447,7 +447,7 @@ fn giant_type(rng: &mut crate::rng::Rng) -> Type {
 }
 
 pub fn run(ctx: &mut Ctx) {
-    let total = ctx.q(40000, 800000);
+    let total = ctx.q(120000, 1600000);
     ctx.cases("histories", total, |ctx, idx| {
         let n_ctx = if ctx.rng.chance(1, 3) { 2 } else { 1 };
         let ctxs: Vec<Context> = (0..n_ctx).map(|_| create_context().unwrap()).collect();
